@@ -208,6 +208,35 @@ func bytePieces(t *Term) []string {
 		}
 	case t.Op == "Bin" && t.S == "+" && len(t.Args) == 2:
 		return append(bytePieces(t.Args[0]), bytePieces(t.Args[1])...)
+	case t.Op == "Call" && t.S == "strings.Join" && len(t.Args) == 2:
+		// Join(append([]string{a, b}, rest...), sep) emits a sep b, then sep x for every x of rest
+		sep := t.Args[1]
+		if !(sep.Op == "Const" && strings.HasPrefix(sep.S, "\"")) {
+			break
+		}
+		var lead []*Term
+		var rest *Term
+		switch l := t.Args[0]; {
+		case l.Op == "List":
+			lead = l.Args
+		case l.Op == "Concat" && len(l.Args) == 2 && l.Args[0].Op == "List":
+			lead, rest = l.Args[0].Args, l.Args[1]
+		}
+		if len(lead) == 0 {
+			break
+		}
+		var out []string
+		for i, x := range lead {
+			if i > 0 {
+				out = append(out, bytePieces(sep)...)
+			}
+			out = append(out, bytePieces(x)...)
+		}
+		if rest != nil {
+			over := short(rest.String())
+			out = append(out, "Star["+over+"]{"+joinPieces(append(bytePieces(sep), "{Elem("+over+", (RangeIdx#1 + 1))}"))+"}")
+		}
+		return out
 	}
 	return []string{"{" + short(t.String()) + "}"}
 }
